@@ -768,6 +768,12 @@ func (f *File) UpdateSidx(addIfNotExists, nonZeroEPT bool) error {
 		sidx = &SidxBox{}
 	}
 	fillSidx(sidx, refTrak, segDatas, nonZeroEPT)
+	if exists {
+		// Other top-level sidx boxes lie between the updated one and the first segment
+		for _, sx := range f.Sidxs[1:] {
+			sidx.FirstOffset += sx.Size()
+		}
+	}
 	if !exists {
 		err = insertSidx(f, segDatas, sidx)
 		if err != nil {
